@@ -5,6 +5,9 @@ import Xp.Drv.C14
 import Xp.Drv.C16
 import Xp.Drv.C18
 import Xp.Drv.C02Crd
+import Xp.Drv.C02World
+import Xp.Drv.C02Two
+import Xp.Drv.C02Unpub
 namespace Xp.C02
 open Xp.IOx
 /-- C02 scenarios are wrapped: {"site": id, "scn": scenario of that site's model}. -/
@@ -17,5 +20,8 @@ def handler : Handler := fun w =>
   | "C16" => Xp.C16.handler (obj w "scn")
   | "C18" => Xp.C18.handler (obj w "scn")
   | "crd" => Xp.C02Crd.handler (obj w "scn")
+  | "xwE" => Xp.C02World.handler (obj w "scn")
+  | "two" => Xp.C02Two.handler (obj w "scn")
+  | "unpub" => Xp.C02Unpub.handler (obj w "scn")
   | s => .error s!"unknown site {s}"
 end Xp.C02
